@@ -142,6 +142,17 @@ CHECKS["C19"] = (
     "All subsets are enumerated for bases with <= 8 removable components; two-block bases use all subsets of size <= 2, "
     "their complements and 64 generated subsets.", "§5 C19")
 
+CHECKS["C18"] = (
+    "Hypothesis-generated engines, sizes, switches and reader contents vs an independent tabulation (integer root, Fraction grid, lexicographic order, scalar reference engine)",
+    "Generated General-activation engines with 1-4 inputs (already used or fresh), both scopes, v in 1..2000 with all "
+    "perfect powers and neighbours planted, header/inputs/outputs switches, 4 separators, decimals 0..9: header, row "
+    "count k^n with k from integer arithmetic, every input cell within half a unit of the exact grid value with "
+    "exactly d decimals, rows in lexicographic order (last input fastest), every output cell equal to what an "
+    "independently built engine produces for that row processed with Python floats after restart(); reader contents "
+    "with blank/comment/skipped lines and extra columns tabulate exactly the given rows.",
+    "EachVariable sizes bounded by a row cap (cost); outputs of tables > 300 rows verified on 122 rows unless "
+    "lock-previous is on.", "§5 C18")
+
 NOT_APPLICABLE = {}
 
 
